@@ -2,6 +2,7 @@
 import re
 from check import Property
 from props import nodeutil as nu
+from props import joinutil as ju
 
 VLANS = [None, 0, 1, 0x67, 0xfff]
 
@@ -99,6 +100,9 @@ class C13(Property):
             for m in macs:
                 s.add("P.1.%s" % nu.eth_frame(m, nu.mac(1), vlan), "A", "O.1", "O.2", "O.3")
             out.append(s.line())
+        # "P is the only next hop for S until S moves, stays silent for the timeout, or P disconnects": a NEW peer joining the mesh is
+        # none of these - what was learned must survive it
+        out += ju.join_cases(rng, 60 if thorough else 12)
         # hub and router mode with the IP dissector and claims: packets whose source address lies in ANOTHER node's
         # claim (forwarded or spoofed) must not teach anybody anything - replies still follow the claims
         for _ in range(200 if thorough else 40):
@@ -146,6 +150,8 @@ class C13(Property):
         n = len(nodes)
         mode = nodes[0].split(".")[2]
         st = int(nodes[0].split(".")[5])
+        if ju.family(line):
+            return ju.oracle(line, impl_out)
         if mode.startswith("tun"):
             return self.oracle_claims(ops, outs, n, mode)
         if "M.3.1" in ops:
